@@ -204,6 +204,10 @@ type C19Exp struct {
 	// Warm lists accessors (by index into expAccessors) that are called, results discarded, before the comparison:
 	// every aggregate is a function of the recorded generations, not of the calls made earlier on the same object.
 	Warm []int `json:"warm,omitempty"`
+	// Receiver (used by the C15 round trip): what the experiment value that receives the saved record held before:
+	// 0 nothing (fresh value), 1 the same record (read twice into one variable), 2 a longer unrelated record,
+	// 3 the leftovers of a read that failed on a truncated copy of the file
+	Receiver int `json:"receiver,omitempty"`
 }
 
 // expAccessors: every accessor of the experiment and of its trials, as calls whose results are discarded
@@ -245,6 +249,9 @@ func genC19Exp() *rapid.Generator[C19Exp] {
 		n := rapid.IntRange(0, 4).Draw(t, "warm-up calls")
 		for i := 0; i < n; i++ {
 			c.Warm = append(c.Warm, rapid.IntRange(0, len(expAccessors)-1).Draw(t, "accessor"))
+		}
+		if rapid.Bool().Draw(t, "used receiver") {
+			c.Receiver = rapid.IntRange(1, 3).Draw(t, "receiver kind")
 		}
 		return c
 	})
